@@ -37,7 +37,7 @@ std::string json_escape(const std::string &s) {
 static void dump_num(double d, std::string &out) {
 	if (std::isnan(d) || std::isinf(d)) { out += "null"; return; }
 	char buf[40];
-	if (d == (double)(long long)d && std::fabs(d) < 1e15) { snprintf(buf, sizeof buf, "%lld", (long long)d); out += buf; return; }
+	if (std::fabs(d) < 1e15 && d == (double)(long long)d) { snprintf(buf, sizeof buf, "%lld", (long long)d); out += buf; return; }
 	snprintf(buf, sizeof buf, "%.15g", d);
 	if (strtod(buf, nullptr) != d) snprintf(buf, sizeof buf, "%.17g", d);
 	out += buf;
@@ -110,7 +110,7 @@ struct P {
 					utf8(v, out); break; }
 				default: return false;
 				}
-			} else { out += (char)c; i++; }
+			} else { if (c < 0x20) return false; out += (char)c; i++; } // raw control characters are not JSON
 		}
 		return false;
 	}
